@@ -4,6 +4,7 @@ package main
 
 import (
 	"fmt"
+	"os"
 	"go/constant"
 	"go/types"
 	"strings"
@@ -338,6 +339,13 @@ func (e *enc) trIdent(name string, env *Env) Val {
 		if v, ok := e.pkgObject(p.Pkg, name, env); ok {
 			return v
 		}
+	}
+	if os.Getenv("GOVC_DEBUG_NAMES") != "" {
+		var ks []string
+		for k := range env.vars {
+			ks = append(ks, k)
+		}
+		fmt.Fprintf(os.Stderr, "NAMES %s: %q not in %v\n", e.name, name, ks)
 	}
 	e.trFail("unknown identifier %q", name)
 	return Val{}
